@@ -31,7 +31,7 @@ import c08_extract
 from pipefunc.map._mapspec import ArraySpec, MapSpec, mapspec_axes, mapspec_dimensions, trace_dependencies, validate_consistent_axes
 
 PID = "C08"
-PROPS = ["PfModel.Props.C08", "PfModel.Props.C08Regex", "PfModel.Props.C08Axes", "PfModel.Props.C08Spaced", "PfModel.Props.C08Ops", "PfModel.Props.C08AxesLoop", "PfModel.Props.C08KeyTests", "PfModel.Props.C08Src"]
+PROPS = ["PfModel.Props.C08", "PfModel.Props.C08Regex", "PfModel.Props.C08Axes", "PfModel.Props.C08Spaced", "PfModel.Props.C08Ops", "PfModel.Props.C08AxesLoop", "PfModel.Props.C08KeyTests", "PfModel.Props.C08RoundtripIff", "PfModel.Props.C08Src"]
 GENERATED = True          # Props/C08Src.lean is proved against lean/PfModel/Generated/C08Facts.lean, regenerated from the source on every run
 DRIVER = "C08"
 RULE = ("four seeded streams: (1) structured specs (0-3 inputs, 1-2 outputs, 1-4 index names, rank 1-3 with ':' axes, plain / "
